@@ -30,13 +30,16 @@ type diagRec struct {
 	Panic      string  `json:"panic"`
 	// FaceOrientations: groups of face indices (1-based, as in F) with their flags; its own panic (the call
 	// is documented for orientable manifolds only - DiagJudge decides whether F is one)
+	// Clusters: per vertex (first entry: its name) the sizes, ascending, of the clusters the pointer mesh's fan
+	// search (ptrCoord.Clusters, the search behind the dual contouring repair) puts its faces into
+	Clusters [][]int  `json:"clusters"`
 	FoGroups [][]int  `json:"fogroups"`
 	FoFlags  [][]bool `json:"foflags"`
 	FoPanic  string   `json:"fopanic"`
 }
 
 func diagRun(id int, faces [][]int, indexFirst bool) diagRec {
-	rec := diagRec{ID: id, Kind: "diag", Site: "model3d.Mesh", F: faces, Sing: []int{}, Incons: [][]int{},
+	rec := diagRec{ID: id, Kind: "diag", Site: "model3d.Mesh", F: faces, Sing: []int{}, Incons: [][]int{}, Clusters: [][]int{},
 		FoGroups: [][]int{}, FoFlags: [][]bool{}}
 	var mesh *model3d.Mesh
 	faceOf := map[*model3d.Triangle]int{}
@@ -64,6 +67,15 @@ func diagRun(id int, faces [][]int, indexFirst bool) diagRec {
 			rec.Incons = append(rec.Incons, []int{name[e[0]], name[e[1]]})
 		}
 		rec.Orientable = m.Orientable()
+		for v, groups := range model3d.VerifFanClusters(m) {
+			row := []int{}
+			for _, g := range groups {
+				row = append(row, len(g))
+			}
+			sort.Ints(row)
+			rec.Clusters = append(rec.Clusters, append([]int{name[v]}, row...))
+		}
+		sort.Slice(rec.Clusters, func(i, j int) bool { return rec.Clusters[i][0] < rec.Clusters[j][0] })
 	})
 	if rec.Panic == "" {
 		rec.FoPanic = protect(func() {
